@@ -12,6 +12,7 @@ import (
 	"strconv"
 	"strings"
 	"sync"
+	"syscall"
 	"time"
 
 	"verifmc/ev"
@@ -47,6 +48,21 @@ func Shard() (int, int, bool) {
 // exits.  A worker that dies (crash, OOM, timeout) is reported as a violation with the
 // tail of its stderr: a crash of the code under test must not pass silently.
 func Run(r *ev.Run, n int, perWorkerTimeout time.Duration, fn func(i, n int, r *ev.Run)) {
+	run(r, n, perWorkerTimeout, false, fn)
+}
+
+// RunStrict is Run for harnesses whose whole shard normally takes seconds: a worker that
+// is still running after perWorkerTimeout (choose it orders of magnitude above the
+// normal run) is reported as a violation (the code under test does not terminate), not
+// as an incomplete run.
+func RunStrict(r *ev.Run, n int, perWorkerTimeout time.Duration, fn func(i, n int, r *ev.Run)) {
+	run(r, n, perWorkerTimeout, true, fn)
+}
+
+func run(r *ev.Run, n int, perWorkerTimeout time.Duration, strict bool, fn func(i, n int, r *ev.Run)) {
+	if d, err := time.ParseDuration(os.Getenv("VERIF_WORKER_TIMEOUT")); err == nil && d > 0 {
+		perWorkerTimeout = d // experiments only
+	}
 	if i, nn, ok := Shard(); ok {
 		fn(i, nn, r)
 		if err := r.WritePartial(os.Getenv("VERIF_PARTIAL")); err != nil {
@@ -90,8 +106,8 @@ func Run(r *ev.Run, n int, perWorkerTimeout time.Duration, fn func(i, n int, r *
 			case werr = <-done:
 			case <-time.After(perWorkerTimeout):
 				timedOut = true
-				cmd.Process.Signal(os.Interrupt)
-				time.Sleep(200 * time.Millisecond)
+				cmd.Process.Signal(syscall.SIGQUIT) // goroutine dump into the worker's stderr
+				time.Sleep(500 * time.Millisecond)
 				cmd.Process.Kill()
 				<-done
 			}
@@ -99,6 +115,15 @@ func Run(r *ev.Run, n int, perWorkerTimeout time.Duration, fn func(i, n int, r *
 			mu.Lock()
 			defer mu.Unlock()
 			if timedOut {
+				if strict {
+					b, _ := os.ReadFile(filepath.Join(dir, fmt.Sprintf("err-%d.txt", i)))
+					tail := string(b)
+					if len(tail) > 2000 {
+						tail = tail[len(tail)-2000:]
+					}
+					r.Violate("no-termination", fmt.Sprintf("worker %d/%d was still running after %s (a normal shard takes seconds): the code under test does not return", i, n, perWorkerTimeout), map[string]any{"stderr_tail": tail})
+					return
+				}
 				r.NotExhaustive(fmt.Sprintf("worker %d/%d stopped at the internal deadline %s", i, n, perWorkerTimeout))
 				return
 			}
